@@ -42,6 +42,7 @@ static LargeWord            LabelValue;
  * ------------------------------------------------------------------------ */
 
 void LabelReset(void) {
+    FlushPendingPhaseError();
     pLabelElement = NULL;
     pLabelEntry   = NULL;
     LabelValue    = (LargeWord)-1;
@@ -96,6 +97,7 @@ Boolean LabelPresent(void) {
  * ------------------------------------------------------------------------ */
 
 void LabelHandle(tStrComp const* pName, LargeWord Value, Boolean ForceGlobal) {
+    FlushPendingPhaseError();
     pLabelElement = NULL;
     pLabelEntry   = NULL;
 
@@ -149,6 +151,7 @@ void LabelModify(LargeWord OldValue, LargeWord NewValue) {
         }
         if (pLabelEntry) {
             ChangeSymbol(pLabelEntry, NewValue);
+            FlushPendingPhaseError();
         }
         LabelValue = NewValue;
     }
